@@ -3,7 +3,10 @@
 Framing: byte streams (from TLC simulation of SerialFraming, a seeded generator and hand-written cases) are pushed
 through the REAL decoders of a booted OPP / FAST / PKONE platform once per chunking (every chunking for short
 streams, sampled beyond); the messages handed to the message processors, the switch states and the carry-over are
-logged per chunking and validated against the byte-exact model (SerialFramingTrace).
+logged per chunking and validated against the byte-exact model (SerialFramingTrace).  The receiver state "switch states
+as last reported" is followed along the whole message sequence (recorded after every decoded message): single switch
+events interleaved with full-state reports (OPP read-input frames, FAST SA: reports of a Neuron and of a Nano NET
+processor), repeated identical reports included.
 Flow control: schedules (TLC simulation of FastFlow + hand-written) drive the real FastNetNeuronCommunicator with a
 recording port and a hand-fed reader in virtual time (FastFlowTrace).
 """
@@ -102,7 +105,11 @@ def _make_mocks():
             return out
 
     class FastNetMock(_Port):
-        """A FAST Neuron NET port with one FP-I/O-3208 board."""
+        """A FAST Neuron (or, nano=True, a Nano) NET port with one FP-I/O-3208 board."""
+
+        def __init__(self, nano=False):
+            super().__init__()
+            self.nano = nano
 
         def respond(self, msg):
             out = b''
@@ -111,13 +118,18 @@ def _make_mocks():
                     continue
                 cmd = line.decode()
                 if cmd.startswith('ID:'):
-                    r = 'ID:NET FP-CPU-2000  02.13'
+                    r = 'ID:NET FP-CPU-002-2  01.05' if self.nano else 'ID:NET FP-CPU-2000  02.13'
                 elif cmd.startswith('CH:'):
                     r = 'CH:P'
                 elif cmd.startswith('WD:'):
                     r = 'WD:P'
                 elif cmd == 'NN:00':
                     r = 'NN:00,FP-I/O-3208-3   ,01.10,08,20,00,00,00,00,00,00'
+                elif self.nano and cmd[:3] in ('SN:', 'DN:', 'TN:'):
+                    r = cmd[:3] + 'P' if ',' in cmd or cmd[:3] == 'TN:' else cmd + (',00,00,00' if cmd[:3] == 'SN:' else
+                                                                                    ',00,00,00,00,00,00,00,00')
+                elif self.nano and cmd.startswith('SA:'):
+                    r = 'SA:01,00,09,' + '00' * 9
                 elif cmd.startswith('NN:'):
                     r = 'NN:%s,!Node Not Found!,,,,,,,,,' % cmd[3:]
                 elif cmd.startswith('SL:'):
@@ -178,6 +190,8 @@ def _boot(proto):
         mock, port, mdir = OppChainMock({0x20: b'\x02\x02\x02\x02', 0x21: b'\x02\x02\x04\x05'}), 'com1', 'serial_opp'
     elif proto == 'fast':
         mock, port, mdir = FastNetMock(), 'com3', 'serial_fast'
+    elif proto == 'fastnano':
+        mock, port, mdir = FastNetMock(nano=True), 'com3', 'serial_fast_nano'
     else:
         mock, port, mdir = PkoneMock(), 'com3', 'serial_pkone'
 
@@ -205,12 +219,22 @@ OPP_SW = [('s0_0', 0x20, 8, 0), ('s0_1', 0x20, 8, 1), ('s0_8', 0x20, 8, 8), ('s0
           ('s1_0', 0x21, 8, 0), ('s1_5', 0x21, 8, 5), ('s1_13', 0x21, 8, 13),
           ('m1_32', 0x21, 0x19, 0), ('m1_37', 0x21, 0x19, 5), ('m1_61', 0x21, 0x19, 29), ('m1_95', 0x21, 0x19, 63)]
 OPP_KEYS = [0x20 * 256 + 8, 0x21 * 256 + 8, 0x21 * 256 + 0x19]
-FAST_SW = [('s_01', 1), ('s_0a', 10), ('s_11', 17), ('s_1f', 31)]
+FAST_SW = [('s_01', 1), ('s_05', 5), ('s_0a', 10), ('s_11', 17), ('s_1f', 31)]     # s_05 is normally closed
+FAST_INV = [5]
 PK_SW = [('s_0_01', 1), ('s_0_12', 12), ('s_0_30', 30)]
 
 
 def _asc(s):
     return [ord(c) for c in s]
+
+
+def fast_sa(on=(), raw_nc=True, n=14, fmt='neuron'):
+    """SA: report of n data bytes: the switches `on` closed; raw_nc: the bit of the normally-closed switch is set (inactive)."""
+    data = bytearray(n)
+    for k in list(on) + (FAST_INV if raw_nc else []):
+        data[k // 8] |= 1 << (k % 8)
+    head = 'SA:%02X,' % n if fmt == 'neuron' else 'SA:01,00,%02X,' % n
+    return _asc(head + data.hex().upper() + '\r')
 
 
 def links():
@@ -243,6 +267,21 @@ def links():
         dict(id='fast2', proto='fast', fill=[[13]], noise=_asc('-:AL/'), keys=[n for _, n in FAST_SW],
              sws=[n for _, n in FAST_SW], P=1, G=99,
              frames=[_asc(s + '\r') for s in ('-L:01', '/L:01', '-L:0A', '-L:11', '/L:11', '-L:07')]),
+        # full-state reports (SA:) between switch events: 0 quiet, 1 all bits 0 (the NC switch active), 2 and 3 some closed
+        dict(id='fast3', proto='fast', fill=[[13]], noise=_asc('Z,0') + [13], keys=[n for _, n in FAST_SW],
+             sws=[n for _, n in FAST_SW], P=1, G=99, maxwire=120, reports=[0, 1, 2, 3],
+             frames=[fast_sa(), fast_sa(raw_nc=False), fast_sa([1, 10, 31]), fast_sa([1, 17], raw_nc=False)] +
+             [_asc(s + '\r') for s in ('-L:01', '/L:01', '-L:05', '/L:05', '-L:1F', '/L:0A', '-L:11')]),
+        # the same with short reports (4 data bytes cover the configured switches): small enough for the exhaustive runs
+        dict(id='fast3s', proto='fast', fill=[[13]], noise=_asc(',Z') + [13], keys=[n for _, n in FAST_SW],
+             sws=[n for _, n in FAST_SW], P=1, G=99, san=4, maxwire=80, reports=[0, 1, 2],
+             frames=[fast_sa(n=4), fast_sa([1, 10, 31], n=4), fast_sa([5, 17], raw_nc=False, n=4)] +
+             [_asc(s + '\r') for s in ('-L:01', '-L:05', '/L:01', '/L:1F')]),
+        # a Nano: reports "SA:aa,bb,<count>,<9 data bytes>", network switch events -N: / /N: (-L: means nothing to it)
+        dict(id='fast4', proto='fast', mach='fastnano', fill=[[13]], noise=_asc('Z,L') + [13], keys=[n for _, n in FAST_SW],
+             sws=[n for _, n in FAST_SW], P=1, G=99, saf=3, san=9, swc=ord('N'), maxwire=120, reports=[0, 1, 2],
+             frames=[fast_sa(n=9, fmt='nano'), fast_sa([1, 10, 31], n=9, fmt='nano'), fast_sa([17], raw_nc=False, n=9, fmt='nano')] +
+             [_asc(s + '\r') for s in ('-N:01', '/N:01', '-N:05', '-N:1F', '/N:0A', '-N:11')]),
         dict(id='pkone1', proto='pkone', fill=[], noise=_asc('Z1E') + [255], keys=[n for _, n in PK_SW],
              sws=[n for _, n in PK_SW], P=1, G=99,
              frames=[_asc(s + 'E') for s in ('PSW0011', 'PSW0010', 'PSW0121', 'PSW0120', 'PSW0301', 'PSW0071')]),
@@ -250,6 +289,13 @@ def links():
              sws=[n for _, n in PK_SW], P=1, G=99,
              frames=[_asc(s + 'E') for s in ('PSW0011', 'PSW0121', 'PSW0300', 'PSW0301')]),
     ]
+    for c in out:
+        c.setdefault('saf', 1 if c['proto'] == 'fast' else 0)
+        c.setdefault('san', 14 if c['proto'] == 'fast' else 0)
+        c.setdefault('inv', FAST_INV if c['proto'] == 'fast' else [])
+        c.setdefault('maxwire', 44)
+        c.setdefault('swc', ord('L') if c['proto'] == 'fast' else 0)
+        c.setdefault('mach', c['proto'])        # which emulated machine of this driver executes the streams
     return out
 
 
@@ -258,12 +304,14 @@ def link_tla(c, frames=None, noise=None):
     fr = [c['frames'][i] for i in frames] if frames else c['frames']
     nz = [c['noise'][i] for i in noise] if noise else c['noise']
     d = dict(id=c['id'], proto=c['proto'], frames=TlaSet(fr), fill=TlaSet(c['fill']), noise=TlaSet(nz),
-             keys=c['keys'], sws=c['sws'], infl=3 if c['proto'] == 'pkone' else 0, P=c['P'], G=c['G'])
+             keys=c['keys'], sws=c['sws'], infl=3 if c['proto'] == 'pkone' else 0, P=c['P'], G=c['G'],
+             saf=c['saf'], san=c['san'], inv=c['inv'], swc=c['swc'])
     return to_tla(d)
 
 
 def link_json(c):
-    return dict(id=c['id'], proto=c['proto'], keys=c['keys'], sws=c['sws'], infl=3 if c['proto'] == 'pkone' else 0, P=c['P'], G=c['G'])
+    return dict(id=c['id'], proto=c['proto'], keys=c['keys'], sws=c['sws'], infl=3 if c['proto'] == 'pkone' else 0, P=c['P'], G=c['G'],
+                saf=c['saf'], san=c['san'], inv=c['inv'], swc=c['swc'])
 
 
 def framing_mc_module(cfgs):
@@ -286,25 +334,34 @@ CONSTANTS
 %sCHECK_DEADLOCK FALSE
 """
 FRAMING_PROPS = ('INVARIANT FramesValid\nINVARIANT ChunkInvariance\nINVARIANT BadFrameInert\nINVARIANT NoInventedState\n'
-                 'INVARIANT Resync\nINVARIANT LastReportWins\n')
+                 'INVARIANT Resync\nINVARIANT LastReportWins\nINVARIANT SequenceFollowsReports\n')
 
 
 # ===================================================================================== real decoders
-def _install_recorder(cls, name, rec, conv):
+_CUR = {'rec': None}         # the recorder of the machine that is executing a stream (two FAST machines share a class)
+
+
+def _install_recorder(cls, name, conv):
     """Wrap cls.<name> (class level: the platform classes use __slots__) so that every call is recorded."""
     orig = getattr(cls, name)
     if getattr(orig, '_c14', False):
         return
 
     def wrapper(self, *a, **kw):
-        if rec['on']:
-            rec['calls'].append(conv(a))
-        return orig(self, *a, **kw)
+        rec = _CUR['rec']
+        if rec is None or not rec['on']:
+            return orig(self, *a, **kw)
+        rec['calls'].append(conv(a))
+        try:
+            return orig(self, *a, **kw)
+        finally:                # the switch states when the handler of this message has returned (or raised)
+            rec['hist'].append(sum(int(x.state) << j for j, x in enumerate(rec['sw'])))
     wrapper._c14 = True
     setattr(cls, name, wrapper)
 
 
 def _link_machine(proto):
+    """proto: the machine to use (cfg.mach): opp, fast (Neuron), fastnano, pkone."""
     key = 'link_' + proto
     if key in _W and not _W[key].get('dirty'):
         return _W[key]
@@ -313,25 +370,26 @@ def _link_machine(proto):
     h = _boot(proto)
     m = h.machine
     p = m.default_platform
-    rec = {'on': False, 'calls': []}
+    rec = {'on': False, 'calls': [], 'hist': [], 'sw': []}
     w = {'h': h, 'rec': rec, 'dirty': False}
     h.mock.auto = False
     if proto == 'opp':
         w['comm'] = p.opp_connection['com1']
-        _install_recorder(type(p), 'process_received_message', rec, lambda a: list(bytes(a[1])))
+        _install_recorder(type(p), 'process_received_message', lambda a: list(bytes(a[1])))
         w['names'] = [n for n, _, _, _ in OPP_SW]
-    elif proto == 'fast':
+    elif proto in ('fast', 'fastnano'):
         w['comm'] = p.serial_connections['net']
         from mpf.platforms.fast.communicators.base import FastSerialCommunicator
-        _install_recorder(FastSerialCommunicator, '_dispatch_incoming_msg', rec,
+        _install_recorder(FastSerialCommunicator, '_dispatch_incoming_msg',
                           lambda a: list(a[0].encode('utf-8', 'surrogateescape')) if isinstance(a[0], str) else list(a[0]))
         for t in w['comm'].tasks:       # the watchdog would interleave writes; it is not part of framing
             t.cancel()
         w['names'] = [n for n, _ in FAST_SW]
     else:
         w['comm'] = p.controller_connection
-        _install_recorder(type(p), 'process_received_message', rec, lambda a: list(a[0].encode('utf-8', 'surrogateescape')))
+        _install_recorder(type(p), 'process_received_message', lambda a: list(a[0].encode('utf-8', 'surrogateescape')))
         w['names'] = [n for n, _ in PK_SW]
+    rec['sw'] = [m.switches[n] for n in w['names']]
     for _ in range(3):
         h.advance_time_and_run(0)
     _W[key] = w
@@ -349,15 +407,21 @@ def _reset_decoder(proto, w):
                               opp_crc([0x21, 0x19] + [255] * 8) + [255, 255, 255]))
         comm.part_msg = b''
         comm._lost_synch = False
-    elif proto == 'fast':
+    elif proto in ('fast', 'fastnano'):
         comm.received_msg = b''
-        comm.parse_incoming_raw_bytes(b''.join(('/L:%02X\r' % n).encode() for _, n in FAST_SW))
+        # the board reports all inputs open (as it did at boot), then every switch inactive (also the normally-closed one)
+        if proto == 'fast':
+            comm.parse_incoming_raw_bytes(bytes(fast_sa(raw_nc=False)) + b''.join(('/L:%02X\r' % n).encode() for _, n in FAST_SW))
+        else:
+            comm.parse_incoming_raw_bytes(bytes(fast_sa(raw_nc=False, n=9, fmt='nano')) +
+                                          b''.join(('/N:%02X\r' % n).encode() for _, n in FAST_SW))
     else:
         comm.received_msg = b''
         comm.messages_in_flight = 0
         comm._parse_msg(b''.join(('PSW0%02d0E' % n).encode() for _, n in PK_SW))
         comm.messages_in_flight = 3       # as if three commands were awaiting their answers (cfg.infl)
     w['rec']['calls'] = []
+    w['rec']['hist'] = []
     w['rec']['on'] = True
 
 
@@ -393,8 +457,9 @@ def chunkings(n, exhaustive_upto, rnd, nsample):
     full = (1 << (n - 1)) - 1
     ms = [0, full]
     ms += [1 << i for i in range(n - 1)]
-    ms += [(1 << i) | (1 << (i + 1)) for i in range(n - 2)]
-    ms += [full ^ (1 << i) for i in range(n - 1)]
+    if n <= 48:
+        ms += [(1 << i) | (1 << (i + 1)) for i in range(n - 2)]
+        ms += [full ^ (1 << i) for i in range(n - 1)]
     for size in (2, 3, 5, 7, 11):
         ms.append(sum(1 << (i - 1) for i in range(size, n, size)))
     ms += [rnd.getrandbits(n - 1) for _ in range(nsample)]
@@ -412,7 +477,7 @@ def exec_wire(job):
         return _exec_wire(cfg, wire, upto, nsample, seed, extra)
     except Exception as ex:  # pylint: disable=broad-except
         import traceback
-        k = 'link_' + cfg['proto']
+        k = 'link_' + cfg['mach']
         if k in _W:
             _W[k]['dirty'] = True
         return {'cfg': link_json(cfg), 'wire': wire, 'tbl': [], 'ev': [{'t': 'crash', 'what': repr(ex)[:300]}],
@@ -420,9 +485,10 @@ def exec_wire(job):
 
 
 def _exec_wire(cfg, wire, upto, nsample, seed, extra):
-    proto = cfg['proto']
-    w = _link_machine(proto)
+    proto, mach = cfg['proto'], cfg['mach']
+    w = _link_machine(mach)
     h, comm, rec = w['h'], w['comm'], w['rec']
+    _CUR['rec'] = rec
     sw = [h.machine.switches[n] for n in w['names']]
     data = bytes(wire)
     n = len(data)
@@ -433,7 +499,7 @@ def _exec_wire(cfg, wire, upto, nsample, seed, extra):
             masks.append(x)
     tbl, ids, ev, excs = [], {}, [], set()
     for k, mask in enumerate(masks):
-        _reset_decoder(proto, w)
+        _reset_decoder(mach, w)
         dead = False
         for (a, b) in chunks_of_mask(n, mask):
             try:
@@ -451,7 +517,7 @@ def _exec_wire(cfg, wire, upto, nsample, seed, extra):
                 ids[t] = len(tbl)
             o.append(ids[t])
         c, ls = _carry(proto, comm)
-        line = {'o': o, 's': [int(x.state) for x in sw], 'c': c, 'ls': ls, 'dd': dead,
+        line = {'o': o, 'h': list(rec['hist']), 's': [int(x.state) for x in sw], 'c': c, 'ls': ls, 'dd': dead,
                 'f': int(comm.messages_in_flight) if proto == 'pkone' else 0}
         if n <= 24:
             line.update(t='m', m=mask, k=[])
@@ -472,8 +538,20 @@ def _exec_wire(cfg, wire, upto, nsample, seed, extra):
 def random_wire(cfg, rnd):
     """Frames of the configuration with fillers, then up to three channel faults anywhere."""
     w = []
-    for _ in range(rnd.randint(1, 4)):
-        w += rnd.choice(cfg['frames'])
+    seq = None
+    if cfg.get('reports') and rnd.random() < 0.7:
+        # a full-state report, switch events, then the same report again (or another one), events, ...
+        ev = [f for i, f in enumerate(cfg['frames']) if i not in cfg['reports']]
+        rp = [cfg['frames'][i] for i in cfg['reports']]
+        r = rnd.choice(rp)
+        seq = [r] if rnd.random() < 0.7 else []
+        for _ in range(rnd.randint(1, 2)):
+            seq += [rnd.choice(ev) for _ in range(rnd.randint(1, 3))]
+            seq.append(r if rnd.random() < 0.6 else rnd.choice(rp))
+        if rnd.random() < 0.3:
+            seq.append(rnd.choice(ev))
+    for f in seq or [None] * rnd.randint(1, 4):
+        w += f or rnd.choice(cfg['frames'])
         if cfg['fill'] and rnd.random() < 0.4:
             w += rnd.choice(cfg['fill'])
     for _ in range(rnd.choice([0, 1, 1, 2, 2, 3])):
@@ -489,7 +567,7 @@ def random_wire(cfg, rnd):
             w[i:i] = [rnd.choice(cfg['noise']) for _ in range(rnd.randint(1, 3))]
         elif len(w) > 8:
             del w[i:i + rnd.randint(1, 4)]
-    return w[:44]
+    return w[:cfg['maxwire']]
 
 
 def handmade(cfgs):
@@ -528,6 +606,27 @@ def handmade(cfgs):
         ('pkone1', A('ZZEPSW0121E'), []), ('pkone1', A('PSW0') + [255] + A('11EPSW0121E'), []),
         ('pkone1', A('PSW011EPSW0301E'), []),                       # a digit dropped
         ('pkone1', A('PSWZ011EPSW0301E'), []), ('pkone2', A('PWDEPSW0011EPWDE'), []),
+    ]
+    # full-state reports and switch events: the last report wins, also when it repeats an earlier report
+    g, gs = c['fast3']['frames'], c['fast3s']['frames']
+    Q, Z, B, C = g[0], g[1], g[2], g[3]
+    out += [
+        ('fast3', Q + A('-L:01\r') + Q, []), ('fast3', A('-L:01\r') + Z, []), ('fast3', Z, []), ('fast3', B + B, []),
+        ('fast3', B + A('/L:01\r-L:05\r') + B + A('-L:11\r'), []), ('fast3', B + C + A('/L:01\r') + B + C, []),
+        ('fast3', Q + A('-L:1F\r/L:1F\r') + Q + A('-L:05\r') + Q, []),
+        ('fast3', C + A('/L:01\r') + Q + A('-L:01\r') + C + A('/L:01\r') + Q, []),
+        ('fast3', B[:10] + [13] + B[10:] + C, []),                   # a report cut in two by noise (covers 16 switches)
+        ('fast3', A('SA:0E,22040080\r') + Q, []),                    # shortened report that still covers the switches
+        ('fast3s', A('SA:04,220\r') + gs[1], []), ('fast3s', gs[1][:9] + A(',') + gs[1][9:] + A('-L:01\r'), []),
+        ('fast3s', A('SA:Z,') + gs[1][6:] + A('-L:01\r') + gs[1], []),
+        ('fast3s', gs[0] + A('-L:01\r') + gs[0], []), ('fast3s', gs[1] + A('/L:01\r-L:05\r') + gs[1] + gs[2], []),
+        ('fast3s', A('-L:05\r/L:1F\r') + gs[2] + A('/L:01\r') + gs[2], []),
+    ]
+    n4 = c['fast4']['frames']
+    out += [
+        ('fast4', n4[0] + A('-N:01\r') + n4[0], []), ('fast4', n4[1] + A('/N:01\r-N:05\r') + n4[1] + n4[2], []),
+        ('fast4', A('-N:1F\r-L:01\r') + n4[0] + A('-N:11\r') + n4[2] + n4[2], []),
+        ('fast4', A('SA:09,') + n4[1][12:] + n4[1], []),             # a Neuron style report sent to a Nano
     ]
     return [(c[i], wv, x) for i, wv, x in out]
 
@@ -700,6 +799,21 @@ def _classify(ctx, wd, module, cfgwriter, devs, traces, rej, verdict, label):
     return out
 
 
+def _diagnose(wd, module, cfgname, traces, rej, why, v, limit=6):
+    """lib.tlc diagnoses only the first few rejected traces of a batch: locate the failing line of the rejected traces
+    that no recorded deviation explains (they are reported in any case)."""
+    n = 0
+    for i in rej:
+        if why[i] or v.rejected[i].get('line') is not None:
+            continue
+        if n >= limit:
+            break
+        n += 1
+        v1 = tlc.validate_traces(wd, module, cfgname, [traces[i]], workers=1)
+        if 0 in v1.rejected:
+            v.rejected[i].update(v1.rejected[0])
+
+
 def run_framing(ctx):
     cfgs = links()
     by = {c['id']: c for c in cfgs}
@@ -707,12 +821,15 @@ def run_framing(ctx):
     # ---- exhaustive: every stream within the budget, every chunking
     if ctx.quick:
         mc = [link_tla(by['opp1'], [0, 5], [1, 2]), link_tla(by['fast1'], [0, 2], [0, 2, 3]), link_tla(by['pkone1'], [0, 2], [0, 2, 3])]
+        mcseq = [link_tla(by['fast3s'], [0, 1, 3, 4], [0])]
         bounds = dict(MaxFrames=2, MaxFaults=1, MaxInsert=1, MaxFill=1, MaxChunk=11)
     else:
         mc = [link_tla(by['opp1'], [0, 3, 5], [0, 1, 2]), link_tla(by['opp2'], [0, 2, 3], [0, 1, 2]),
               link_tla(by['opp3'], [0, 2, 4], [0, 1, 2]), link_tla(by['fast1'], [0, 1, 2, 4]), link_tla(by['fast2'], [0, 2, 3]),
+              link_tla(by['fast3s'], [1, 3], [0, 2]),
               link_tla(by['pkone1'], [0, 1, 2]), link_tla(by['pkone2'], [0, 1, 2])]
         bounds = dict(MaxFrames=2, MaxFaults=1, MaxInsert=1, MaxFill=2, MaxChunk=11)
+        mcseq = [link_tla(by['fast3s'], [0, 1, 2, 3, 4, 5], [0]), link_tla(by['fast4'], [1, 3, 5], [0])]
     with open(wd + '/SerialFramingMC.tla', 'w') as f:
         f.write(framing_mc_module(mc))
     B = lambda b, spec, conf, dev, props: FRAMING_CFG % (spec, conf, b['MaxFrames'], b['MaxFaults'], b['MaxInsert'],
@@ -721,7 +838,16 @@ def run_framing(ctx):
         f.write(B(bounds, 'Spec', 'MCConfigs', '{}', FRAMING_PROPS))
     r = tlc.expect_ok(tlc.check(wd, 'SerialFramingMC', 'MC.cfg', timeout=3000), 'SerialFraming design check')
     ctx.add_tlc('SerialFramingMC', r, dict(bounds, links=len(mc)))
-    ctx.coverage['monitors'] += ['ChunkInvariance', 'BadFrameInert', 'NoInventedState', 'Resync', 'LastReportWins', 'FramesValid']
+    # longer message sequences on a fault-free link: full-state reports between switch events, repeated reports
+    sb = dict(MaxFrames=3 if ctx.quick else 4, MaxFaults=0, MaxInsert=0, MaxFill=0, MaxChunk=16)
+    with open(wd + '/SerialFramingSeq.tla', 'w') as f:
+        f.write(framing_mc_module(mcseq).replace('SerialFramingMC', 'SerialFramingSeq'))
+    with open(wd + '/MCseq.cfg', 'w') as f:
+        f.write(B(sb, 'Spec', 'MCConfigs', '{}', FRAMING_PROPS))
+    r = tlc.expect_ok(tlc.check(wd, 'SerialFramingSeq', 'MCseq.cfg', timeout=3000), 'SerialFraming design check (report sequences)')
+    ctx.add_tlc('SerialFramingSeq', r, dict(sb, links=len(mcseq)))
+    ctx.coverage['monitors'] += ['ChunkInvariance', 'BadFrameInert', 'NoInventedState', 'Resync', 'LastReportWins', 'FramesValid',
+                                 'SequenceFollowsReports']
     # the monitors do detect the code-as-is deviations (FAST/PKONE robustness): expected counterexample
     with open(wd + '/MCdev.cfg', 'w') as f:
         f.write(B(dict(bounds, MaxFrames=1), 'Spec', 'MCConfigs', to_tla(TlaSet(FRAMING_DEVS)), 'INVARIANT BadFrameInert\n'))
@@ -758,7 +884,7 @@ def run_framing(ctx):
                 p += s['act']['k']
                 if p < len(wire):
                     mask |= 1 << (p - 1)
-        add(by[last['cfg']['id']], wire[:44], [mask] if len(wire) <= 24 else [])
+        add(by[last['cfg']['id']], wire[:by[last['cfg']['id']]['maxwire']], [mask] if len(wire) <= 24 else [])
     rnd = random.Random(ctx.seed)
     for cfg in cfgs:
         for _ in range(8 if ctx.quick else 60):
@@ -789,6 +915,7 @@ def run_framing(ctx):
                 f.write(B(dict(MaxFrames=0, MaxFaults=0, MaxInsert=0, MaxFill=0, MaxChunk=0), 'TSpec', 'TConfigs',
                           to_tla(TlaSet(ds)), 'INVARIANT Reporter\n'))
         why = _classify(ctx, wd, 'SerialFramingTrace', wr, FRAMING_DEVS, traces, rej, v, 'SerialFramingTrace')
+        _diagnose(wd, 'SerialFramingTrace', 'Trace.cfg', traces, rej, why, v)
         SIG = {'DecodeErrorRaises': 'decode-error-kills-reader', 'MalformedRaises': 'malformed-frame-raises',
                'MalformedAccepted': 'malformed-frame-changes-switch'}
         WHAT = {'DecodeErrorRaises': 'a received line/frame that is not valid UTF-8 (line noise with the high bit set) raises '
@@ -809,15 +936,17 @@ def run_framing(ctx):
                     ctx.violation('C14:%s-framing:%s' % (proto, SIG[d]), '%s decoder: %s (stream %s)' % (
                         proto.upper(), WHAT[d], bytes(tr['wire'])), rp)
                 continue
-            if info.get('line') is None:
-                continue
             if tr['ev'] and tr['ev'][0].get('t') == 'crash':
                 ctx.violation('C14:%s-framing:crash' % proto, '%s platform/decoder raised outside the parser while executing '
                               'stream %s: %s' % (proto.upper(), tr['wire'], tr['ev'][0].get('what')), dict(rp, tb=tr.get('_tb')))
                 continue
+            ln = rp['line'] or {}
             ctx.violation('C14:%s-framing:decode-mismatch' % proto,
-                          '%s decoder: chunking %s of stream %s decoded differently from the whole stream / the model: %s' % (
-                              proto.upper(), rp['line'] and (rp['line'].get('m'), rp['line'].get('k')), tr['wire'], rp['line']), rp)
+                          '%s decoder (link %s): chunking %s of stream %r: the decoded messages %s / the switch states after each '
+                          'of them %s / the final switch states %s differ from the model (decoding of the whole stream, every '
+                          'well-formed report applied in order, the last report wins): %s' % (
+                              proto.upper(), tr['cfg']['id'], (ln.get('m'), ln.get('k')), bytes(tr['wire']),
+                              [bytes(tr['tbl'][i - 1]) for i in ln.get('o', [])], ln.get('h'), ln.get('s'), ln), rp)
     return traces
 
 
@@ -870,6 +999,7 @@ def run_flow(ctx):
             with open(path, 'w') as f:
                 f.write(T(to_tla(TlaSet(ds))))
         why = _classify(ctx, wd, 'FastFlowTrace', wr, FLOW_DEVS, traces, rej, v, 'FastFlowTrace')
+        _diagnose(wd, 'FastFlowTrace', 'Trace.cfg', traces, rej, why, v)
         SIG = {'PauseFlagWaitsOnSetEvent': 'write-while-awaiting', 'LostResponseNotRetried': 'lost-response-not-retried'}
         WHAT = {'PauseFlagWaitsOnSetEvent': '_socket_writer does `if pause_sending_flag.is_set(): await pause_sending_flag.wait()`; '
                                             'waiting for an Event that is set returns at once, so the next queued command is '
@@ -885,8 +1015,6 @@ def run_flow(ctx):
                 for d in why[i]:
                     ctx.violation('C14:fast-flow:%s' % SIG[d], '%s; schedule %s; rejected at line %s: %s' % (
                         WHAT[d], _short(traces[i].get('_sched')), info.get('line'), info.get('failing_event')), rp)
-                continue
-            if info.get('line') is None:
                 continue
             fe = info.get('failing_event') or {}
             ctx.violation('C14:fast-flow:%s-unexplained' % fe.get('op', 'end'),
@@ -908,8 +1036,15 @@ def run(ctx):
         'OPP: chain of boards 0x20 (32 inputs) and 0x21 (16 inputs + switch matrix) emulated at boot; Resync on OPP is claimed '
         'only for frames after cfg.G end-of-message bytes (back-to-back reports whose CRC byte looks like an address byte can '
         'keep the decoder out of synch: the "unknown command" branch drops two bytes)',
-        'FAST/PKONE noise alphabets are chosen so that only switch-event headers can be formed; bytes >= 0x80 used as noise '
-        'are never valid UTF-8 (0xff)',
+        'FAST/PKONE noise alphabets are chosen so that only switch-event and SA: report headers can be formed (and no white '
+        'space, which bytearray.fromhex / int() would skip); bytes >= 0x80 used as noise are never valid UTF-8 (0xff)',
+        'FAST full-state reports: SA: of a Neuron (14 data bytes; link fast3s: 4 data bytes, which still cover the configured '
+        'switches) and of a Nano (separate emulated machine, 9 data bytes, -N:/ /N: events); the Retro communicator inherits '
+        '_process_sa of the Neuron unchanged and is not booted.  Reports carry raw states (a normally-closed switch is active '
+        'when its bit is 0, as in the repository tests), events carry logical states.  Every chunking starts from: report '
+        'with all bits 0, then an "open" event for every configured switch',
+        'PKONE PSA (all switches of a board) is only requested and consumed during boot, before the read task exists; at run '
+        'time receive_all_switches only refreshes hw_switch_data. It is not modelled as a report',
         'FastFlow: the periodic watchdog send_and_forget is switched off; commands are synthetic strings C<id>: (the '
         'communicator does not interpret them), confirmations are real ID:/CH:/-L:/XX: lines plus an unknown header ZZ:',
         'OPP look-alike payloads (link opp2: data bytes 0x20..0x3f followed by 0x08/0x19): no bounded Resync is claimed, TLC '
